@@ -182,6 +182,7 @@ FIELDS = [
     {"id": 6, "name": "b", "type": "boolean", "required": False},
     {"id": 7, "name": "g", "type": "float", "required": False},
     {"id": 8, "name": "n", "type": "int", "required": False},
+    {"id": 9, "name": "y", "type": "binary", "required": False},
 ]
 POOLS = {
     "i": [None, -3, 0, 1, 2, 2**53 + 1, -(2**62)],
@@ -192,6 +193,7 @@ POOLS = {
     "b": [None, True, False],
     "g": [None, 0.5, 1.5, 0.1, NAN],
     "n": [None, 0, 1, 7, -(2**31)],
+    "y": [None, b"", b"a", b"ab", b"\xff\x00"],
 }
 
 
@@ -369,6 +371,18 @@ def _end_to_end(ctx, rep):
             ([[{"g": 0.1}, {"g": 0.5}]], "g", "==", 0.1),
             ([[{"s": "a"}, {"s": None}, {"s": "b"}]], "s", "not_in", ["a", None]),
             ([[{"i": 1}, {"i": None}], [{"i": 2}]], "i", "in", []),
+            # columns for which the writer records NO bounds (a float file holding a NaN; binary) while other columns have them
+            ([[{"i": 1, "f": 1.0}, {"i": 2, "f": NAN}, {"i": 3, "f": 2.0}], [{"i": 4, "f": None}]], "f", "is_not_null", True),
+            ([[{"i": 1, "f": 1.0}, {"i": 2, "f": NAN}, {"i": 3, "f": 2.0}], [{"i": 4, "f": None}]], "f", ">", 0.0),
+            ([[{"i": 1, "y": b"a"}, {"i": 2, "y": None}, {"i": 3, "y": b"b"}], [{"i": 4, "y": None}]], "y", "is_not_null", True),
+            ([[{"i": 1, "y": b"a"}, {"i": 2, "y": None}, {"i": 3, "y": b"b"}]], "y", "==", b"b"),
+            # a file larger than the writer's batch with one NaN in its second thousand
+            ([[{"i": k, "f": (NAN if k == 1500 else float(k % 7))} for k in range(2500)], [{"i": 9000, "f": 4.0}]], "f", "!=", 4.0),
+            ([[{"i": k, "f": (NAN if k == 1500 else (50.0 if k == 1501 else float(k % 7)))} for k in range(2500)]], "f", ">=", 50.0),
+            # between with a NULL end point matches nothing (SQL), it is not an open-ended range
+            ([[{"i": 1}, {"i": 15}, {"i": None}, {"i": 30}]], "i", "between", (None, 20)),
+            ([[{"i": 1}, {"i": 15}, {"i": None}, {"i": 30}]], "i", "between", (10, None)),
+            ([[{"i": 1}, {"i": 15}, {"i": None}, {"i": 30}]], "i", "between", (None, None)),
         ]
         for di, (files, col, op, val) in enumerate(directed):
             files = [[{c: r.get(c) for c in POOLS} for r in rows] for rows in files]
